@@ -441,7 +441,7 @@ func (p *proxyConn) writeResponse(res *http.Response) error {
 		}
 		// A 101 response switches protocols, the connection becomes a tunnel
 		// and must not be closed after the response head is written.
-		if res.StatusCode == http.StatusSwitchingProtocols {
+		if res.StatusCode == http.StatusSwitchingProtocols && req.Method != http.MethodConnect {
 			res.Close = false
 		}
 	}
@@ -520,7 +520,8 @@ func skipTraceWroteResponse(res *http.Response, err error) bool {
 	}
 
 	// Skip traceeWroteResponse on successful protocol upgrade.
-	if res.StatusCode == http.StatusSwitchingProtocols {
+	// A 101 in reply to CONNECT is not an upgrade, no tunnel follows it.
+	if res.StatusCode == http.StatusSwitchingProtocols && req.Method != http.MethodConnect {
 		return true
 	}
 
